@@ -20,6 +20,7 @@ type Thread struct {
 	// vector clock for the happens-before race check
 	vc map[int]int
 	// interpreter stacks of this thread while it is not running (the Machine holds the running one's)
+	skipOnce       bool // set while the thread asks to be passed over by the next dispatch
 	savedCallStack []*ssa.Function
 	savedPanicFrs  []*frame
 	savedDepth     int
@@ -108,6 +109,19 @@ func (m *Machine) dispatch(t *Thread) {
 			runnable = append(runnable, th)
 		}
 	}
+	// a thread that yields "to another" (Gosched, a pending timer) is passed over when somebody else
+	// can run
+	if len(runnable) > 1 {
+		var others []*Thread
+		for _, th := range runnable {
+			if !th.skipOnce {
+				others = append(others, th)
+			}
+		}
+		if len(others) > 0 {
+			runnable = others
+		}
+	}
 	if len(runnable) == 0 {
 		allDone := true
 		for _, th := range sc.threads {
@@ -177,6 +191,9 @@ func (m *Machine) park(t *Thread) {
 	if t.id == 0 && sc.fatal != nil {
 		f := sc.fatal
 		sc.fatal = nil
+		// the main thread is resumed out of band: it unwinds on its own interpreter stacks
+		m.callStack, m.panicFrs, m.depth = t.savedCallStack, t.savedPanicFrs, t.savedDepth
+		sc.cur = t
 		panic(f)
 	}
 	sc.cur = t
@@ -929,7 +946,10 @@ func (m *Machine) othersRunnable() bool {
 
 // yieldToOther forces a switch to some other runnable thread.
 func (m *Machine) yieldToOther(what string) {
+	t := m.Sched.cur
+	t.skipOnce = true
 	m.Yield(nil, what)
+	t.skipOnce = false
 }
 
 // timerWaits bounds how often a pending timer may be left un-fired in favour of other threads.
